@@ -170,7 +170,8 @@ def run(ctx):
     ans = ctx.model([r[4] for r in rows])
 
     stats = {"agree": 0, "model_differs": 0, "order_violation": 0, "spurious_timeouts": 0, "confirmed_timeouts": 0,
-             "unconfirmed_timeouts": 0, "skipped": 0, "in_proved_class": 0, "outside_proved_class": 0}
+             "unconfirmed_timeouts": 0, "skipped": 0, "in_proved_class": 0, "outside_proved_class": 0,
+             "fold_header_order_not_fixed_by_manual": 0}
     kinds, consumers, bombs = {}, {}, {}
     samples = []
     diverge_expected = 0
@@ -222,6 +223,11 @@ def run(ctx):
                           "the real interpreter and the proved iterator model disagree on what taking %s item(s) of `%s` "
                           "delivers / consumes (real `%s`, model `%s`, reference `%s`)" % (k, prog, real, it, ref),
                           case, broken=["correspondence c03-take"])
+            continue
+        if tag.startswith("special:hdr:") and in_class == "0":
+            # effects while the source of a reduce/foreach is *built*: the manual does not say whether `xs` or
+            # `init` is started first (theorem fold_header_order_witness); the iterator model agrees with the code
+            stats["fold_header_order_not_fixed_by_manual"] += 1
             continue
         # real == iterator model != reference: something was evaluated that the left-to-right
         # order does not reach before the k-th output (or in another order)
